@@ -89,6 +89,19 @@ impl Joypad {
     !value
   }
 
+  /// Verification hook: (action buttons, direction buttons, action selected,
+  /// direction selected, interrupt latched)
+  #[cfg(gb_dynarec_verif)]
+  pub fn verif_state(&self) -> (u8, u8, bool, bool, bool) {
+    (
+      self.action_state,
+      self.direction_state,
+      self.select_action,
+      self.select_direction,
+      self.next_interrupt != InterruptFlag::empty(),
+    )
+  }
+
   pub fn get_interrupt(&mut self) -> InterruptFlag {
     std::mem::replace(&mut self.next_interrupt, InterruptFlag::empty())
   }
